@@ -3,7 +3,7 @@
    ([must_report], defined in Spec.v without reference to the code), the modelled run ends
    with an error: never Ok, never a crash.  For every plugin and ALL argument lists. *)
 From Verif Require Import Base.
-From Verif.Validate Require Import Aty Add Gen Spec NoCrash Reported.
+From Verif.Validate Require Import Aty Add Gen Spec NoCrash Exact Reported.
 From Coq Require Import Bool List Arith NArith Lia.
 Import ListNotations.
 
@@ -14,6 +14,33 @@ Proof.
 Qed.
 Lemma run_err_of_add p typs : add_model p typs = Err -> run_model p typs = Err.
 Proof. intros A. unfold run_model. rewrite A. reflexivity. Qed.
+
+Lemma run_err_of_add_not_ok p typs : add_model p typs <> Ok -> run_model p typs = Err.
+Proof.
+  intros A. apply run_err_of_add. pose proof (no_crash p typs).
+  destruct (add_model p typs); congruence.
+Qed.
+
+(* a send only channel among the arguments of the variadic deriveJoin is refused *)
+Lemma join_chans_sendonly typs : forall prev,
+  existsb is_sendonly typs = true -> join_chans prev typs <> Ok.
+Proof.
+  induction typs as [|t r IH]; intros prev E; cbn in E; [discriminate|].
+  cbn [join_chans]. destruct t; try discriminate.
+  destruct d; cbn [is_send negb need]; try discriminate; cbn in E;
+    (destruct prev; [destruct (identical t a); cbn [need]; [|discriminate]|]; apply IH; exact E).
+Qed.
+
+Lemma join_sendonly d a r :
+  existsb is_sendonly (AChan d a :: r) = true -> add_join (AChan d a :: r) <> Ok.
+Proof.
+  intros E. unfold add_join. cbn [length Nat.eqb negb need idx nth_error].
+  destruct a.
+  9: { destruct r; cbn [length Nat.eqb need]; [|discriminate].
+       cbn in E. rewrite orb_false_r in E. destruct d; try discriminate E. discriminate. }
+  all: match goal with |- need ?c _ <> Ok => destruct c end; cbn [need]; [|discriminate];
+    apply join_chans_sendonly; exact E.
+Qed.
 
 Lemma minmax_elem_unsup a : has_unsup true true a = true -> minmax_elem a = Err.
 Proof.
@@ -31,7 +58,8 @@ Proof.
     destruct typs as [|[] [|? [|? ?]]]; try discriminate. subst. apply run_err_of_add. reflexivity.
   - (* clone *)
     destruct typs as [|t [|? ?]]; try discriminate. apply run_err_of_gen. cbn.
-    unfold clone_gen. destruct (under t); try (apply unsupported_reported_deepcopy; exact M).
+    assert (M' : has_unsup true false (default_ty t) = true) by (destruct t; exact M).
+    unfold clone_gen. destruct (under (default_ty t)); try (apply unsupported_reported_deepcopy; exact M').
   - (* compare *)
     destruct typs as [|t r]; try discriminate.
     destruct (add_model PCompare (t :: r)) eqn:A; [|apply run_err_of_add; exact A| exfalso; exact (no_crash _ _ A)].
@@ -44,20 +72,40 @@ Proof.
   - (* deepcopy *)
     destruct typs as [|t [|? [|? ?]]]; try discriminate. apply run_err_of_gen. cbn.
     apply unsupported_reported_deepcopy; exact M.
+  - (* dup: a send only channel *)
+    destruct typs as [|c [|? ?]]; try discriminate. destruct c; try discriminate.
+    destruct d; try discriminate. apply run_err_of_add. reflexivity.
   - (* equal *)
     destruct typs as [|t r]; try discriminate.
     apply run_err_of_gen. cbn. apply unsupported_reported_equal; exact M.
   - (* flip *)
     destruct typs as [|[] [|? ?]]; try discriminate. subst. apply run_err_of_add. reflexivity.
+  - (* fmap: a send only channel *)
+    destruct typs as [|f [|c [|? ?]]]; try discriminate. destruct c; try discriminate.
+    destruct d; try discriminate. apply run_err_of_add. reflexivity.
   - (* gostring *)
-    destruct typs as [|t [|? ?]]; try discriminate. apply run_err_of_gen. cbn.
-    apply unsupported_reported_gostring; exact M.
+    destruct typs as [|t [|? ?]]; try discriminate.
+    destruct (is_unil t) eqn:U.
+    + destruct t as [[]| | | | | | | | | | |]; try discriminate U. apply run_err_of_add. reflexivity.
+    + cbn [orb] in M. apply run_err_of_gen. cbn.
+      apply unsupported_reported_gostring; exact M.
   - (* hash *)
-    destruct typs as [|t [|? ?]]; try discriminate. apply run_err_of_gen. cbn.
-    apply unsupported_reported_hash; exact M.
+    destruct typs as [|t [|? ?]]; try discriminate.
+    destruct (is_unil t) eqn:U.
+    + destruct t as [[]| | | | | | | | | | |]; try discriminate U. apply run_err_of_add. reflexivity.
+    + cbn [orb] in M. apply run_err_of_gen. cbn.
+      apply unsupported_reported_hash; exact M.
   - (* intersect *)
     destruct typs as [|[] [|? [|? ?]]]; try discriminate. apply run_err_of_gen. cbn.
     rewrite (unsup_not_can_equal false _ M). apply unsupported_reported_equal; exact M.
+  - (* join: channels that cannot be received from *)
+    apply run_err_of_add_not_ok. cbn [add_model].
+    destruct typs as [|a r]; try discriminate M. destruct a; try discriminate M.
+    + destruct r; try discriminate M. destruct a; try discriminate M. destruct d; try discriminate M.
+      discriminate.
+    + destruct a; try (apply join_sendonly; exact M).
+      destruct r; [|apply join_sendonly; exact M].
+      destruct d, d0; cbn in M; try discriminate M; discriminate.
   - (* max *)
     destruct typs as [|a [|b [|? ?]]]; try discriminate. apply run_err_of_gen. cbn. unfold minmax_gen.
     destruct (identical a b); [apply minmax_elem_unsup; exact M|].
@@ -75,6 +123,10 @@ Proof.
     destruct typs as [|a [|b [|? ?]]]; try discriminate. apply run_err_of_gen. cbn. unfold minmax_gen.
     destruct (identical a b); [apply minmax_elem_unsup; exact M|].
     destruct a; try discriminate. apply minmax_elem_unsup. exact M.
+  - (* pipeline: the first function's channel is send only / the second one's is not receive only *)
+    apply run_err_of_add_not_ok. cbn [add_model]. intros A.
+    apply validate_exact_pipeline in A as (a & b & c & d1 & v1 & v2 & -> & N).
+    cbn in M. destruct d1; try discriminate M. congruence.
   - (* set *)
     destruct typs as [|[] [|? ?]]; try discriminate. apply run_err_of_gen. cbn.
     apply negb_true_iff in M. rewrite M. reflexivity.
@@ -88,6 +140,11 @@ Proof.
   - (* toerror *)
     destruct typs as [|e [|[] [|? ?]]]; try discriminate. subst.
     apply run_err_of_add. cbn. destruct (is_error e); reflexivity.
+  - (* tuple: an untyped nil among the arguments *)
+    apply run_err_of_add_not_ok. cbn [add_model]. intros A.
+    apply validate_exact_tuple in A as [_ A]. apply existsb_unil_false in A.
+    change is_untyped_nil with is_unil in A.
+    destruct typs as [|[] [|? ?]]; try discriminate M; congruence.
   - (* union *)
     destruct typs as [|[] [|? [|? ?]]]; try discriminate. apply run_err_of_gen. cbn.
     rewrite (unsup_not_can_equal false _ M). apply unsupported_reported_equal; exact M.
@@ -98,6 +155,16 @@ Proof.
 Qed.
 
 Example unsupported_reported_instances :
+  must_report PJoin [AChan DRecv (ABasic KInt); AChan DBoth (ABasic KInt); AChan DSend (ABasic KInt)] = true /\
+  must_report PJoin [AChan DRecv (ABasic KInt); AChan DBoth (ABasic KInt)] = false /\
+  run_model PJoin [AChan DRecv (ABasic KInt); AChan DBoth (ABasic KInt)] = Ok /\
+  must_report PJoin [AChan DBoth (AChan DBoth (ABasic KInt))] = true /\
+  must_report PJoin [AChan DBoth (AChan DRecv (ABasic KInt))] = false /\
+  run_model PJoin [AChan DBoth (AChan DRecv (ABasic KInt))] = Ok /\
+  must_report PTuple [ABasic KInt; ABasic KUNil] = true /\
+  run_model PTuple [ABasic KUInt; ABasic KUString] = Ok /\
+  must_report PHash [ABasic KUNil] = true /\ run_model PHash [ABasic KUInt] = Ok /\
+  run_model PClone [ABasic KUString] = Ok /\
   must_report PMin [ABasic KUnsafePtr; ABasic KUnsafePtr] = true /\
   must_report PSort [ASlice (AChan DBoth (ABasic KInt))] = true /\
   must_report PMem [ASig (TCons (ASlice (AIface 0)) TNil) (TCons (ABasic KInt) TNil) false] = true /\
